@@ -19,10 +19,12 @@ package main
 import (
 	"context"
 	"encoding/binary"
+	"errors"
 	"fmt"
 	"io"
 	"log/slog"
 	"net"
+	"os"
 	"strconv"
 	"testing"
 	"time"
@@ -35,6 +37,13 @@ import (
 )
 
 const vC11SentinelCorr = int32(0x5E171E1)
+
+// vC11MarkerCorr: after consuming a Produce acks=0 request (which gets no reply) the fake
+// backend volunteers one frame with this correlation id. A proxy that correctly fires and
+// forgets never reads it; a proxy that (wrongly) waits for a backend reply to the acks=0
+// request relays it to the client. This turns "the proxy would hang forever on a real
+// broker" into a deterministic, timeout-free observation.
+const vC11MarkerCorr = int32(0x0ACC5000)
 
 var vC11TopicID = [16]byte{1, 0, 0, 0, 0, 0, 0, 0, 0, 0, 0, 0, 0, 0, 0, 0x77}
 
@@ -79,6 +88,9 @@ func (b *vC11Backend) serve(conn net.Conn) {
 		switch r := req.(type) {
 		case *kmsg.ProduceRequest:
 			if r.Acks == 0 {
+				var m [4]byte
+				binary.BigEndian.PutUint32(m[:], uint32(vC11MarkerCorr))
+				_ = protocol.WriteFrame(conn, m[:])
 				continue
 			}
 			pr := resp.(*kmsg.ProduceResponse)
@@ -182,7 +194,7 @@ func vC11NewProxy(mode, backendAddr string) *proxy {
 // request followed by a sentinel ApiVersions v0 request (answered by the proxy itself in
 // every mode) and reads frames until the sentinel's reply or EOF. Deterministic: what
 // arrives before the sentinel's reply belongs to the request; no timeouts in the verdict.
-func vC11ProxyExchange(p *proxy, wire []byte) (got vC11Got) {
+func vC11ProxyExchange(p *proxy, wire []byte) (got vC11Got, awaitsAcks0 bool, err error) {
 	client, server := net.Pipe()
 	done := make(chan string, 1)
 	ctx, cancel := context.WithCancel(context.Background())
@@ -204,15 +216,22 @@ func vC11ProxyExchange(p *proxy, wire []byte) (got vC11Got) {
 		_, _ = client.Write(wire)
 		_, _ = client.Write(vC11Format(sent, vC11SentinelCorr))
 	}()
-	_ = client.SetReadDeadline(time.Now().Add(120 * time.Second)) // liveness guard only
+	_ = client.SetReadDeadline(time.Now().Add(30 * time.Second)) // liveness guard only: expiry is a harness error, never a verdict
 	for {
-		f, err := protocol.ReadFrame(client)
-		if err != nil {
+		f, rerr := protocol.ReadFrame(client)
+		if rerr != nil {
+			if errors.Is(rerr, os.ErrDeadlineExceeded) {
+				return got, false, fmt.Errorf("proxy did not answer or close within the liveness guard")
+			}
 			got.Closed = true
 			break
 		}
 		if len(f.Payload) >= 4 && int32(binary.BigEndian.Uint32(f.Payload[:4])) == vC11SentinelCorr {
 			break
+		}
+		if len(f.Payload) == 4 && int32(binary.BigEndian.Uint32(f.Payload[:4])) == vC11MarkerCorr {
+			awaitsAcks0 = true
+			continue
 		}
 		got.Frames = append(got.Frames, f.Payload)
 		if len(got.Frames) > 4 {
@@ -223,7 +242,7 @@ func vC11ProxyExchange(p *proxy, wire []byte) (got vC11Got) {
 	if pmsg := <-done; pmsg != "" {
 		got.Panic = pmsg
 	}
-	return got
+	return got, awaitsAcks0, nil
 }
 
 func TestVerifC11(t *testing.T) {
@@ -255,7 +274,10 @@ func TestVerifC11(t *testing.T) {
 	// advertised set: the real function and the proxy's real ApiVersions v0 reply
 	probe := kmsg.NewPtrApiVersionsRequest()
 	probe.Version = 0
-	g0 := vC11ProxyExchange(vC11NewProxy("ready", addrFor("ready")), vC11Format(probe, 77))
+	g0, _, err := vC11ProxyExchange(vC11NewProxy("ready", addrFor("ready")), vC11Format(probe, 77))
+	if err != nil {
+		t.Fatalf("HARNESS-ERROR %v", err)
+	}
 	var fromReply []kmsg.ApiVersionsResponseApiKey
 	if len(g0.Frames) == 1 && len(g0.Frames[0]) > 4 {
 		ar := kmsg.NewPtrApiVersionsResponse()
@@ -280,9 +302,10 @@ func TestVerifC11(t *testing.T) {
 	}
 	rep.SetInfo("proxy_advertised", advInfo)
 	rep.SetInfo("proxy_advertised_pairs", nAdv)
-	rep.SetInfo("version_window", "min-1 .. max+2 per listed key")
+	below, above := vC11Window()
+	rep.SetInfo("version_window", fmt.Sprintf("min-%d .. max+%d per listed key", below, above))
 
-	cases := vC11Cases("proxy", []string{"ready", "notready", "backend-down"}, keys, adv, listed)
+	cases := vC11Cases("proxy", []string{"static"}, []string{"ready", "notready", "backend-down"}, keys, adv, listed)
 	var only vC11Case
 	if replaying, err := vh.LoadReplay(&only); replaying {
 		if err != nil {
@@ -291,13 +314,7 @@ func TestVerifC11(t *testing.T) {
 		if only.Half != "proxy" {
 			t.Skipf("replay is for half %q", only.Half)
 		}
-		var sel []vC11Case
-		for _, c := range cases {
-			if c.Mode == only.Mode && c.Key == only.Key && c.Version == only.Version && c.Body == only.Body {
-				sel = append(sel, c)
-			}
-		}
-		cases = sel
+		cases = vC11Select(cases, only)
 	}
 	rep.SetInfo("proxy_cases", len(cases))
 
@@ -319,7 +336,15 @@ func TestVerifC11(t *testing.T) {
 			t.Fatalf("HARNESS-ERROR kmsg has no request type for listed key %d", c.Key)
 		}
 		p := vC11NewProxy(c.Mode, addrFor(c.Mode))
-		got := vC11ProxyExchange(p, vC11Format(req, corr))
+		got, awaits, err := vC11ProxyExchange(p, vC11Format(req, corr))
+		if err != nil {
+			t.Fatalf("HARNESS-ERROR %v (case %+v)", err, c)
+		}
+		if awaits {
+			// not a C11 verdict (acks=0 needs no reply); recorded as an observation
+			rep.Count("proxy_awaits_backend_reply_to_acks0_produce", 1)
+			vC11Note(rep, c, "awaits-acks0-reply")
+		}
 		mustReply := c.Advertised && !vC11ProduceAcks0(req) && c.Mode != "backend-down"
 		vC11Judge(rep, c, req, corr, got, mustReply)
 	}
